@@ -5,9 +5,10 @@
 package main
 
 import (
-	"reflect"
 	"fmt"
+	"reflect"
 	"strings"
+	"time"
 
 	"gitee.com/xuesongtao/protoc-go-valid/valid"
 	"verif/internal/lrumodel"
@@ -23,13 +24,23 @@ func (o op) String() string {
 	if o.kind == 'N' {
 		return "Len"
 	}
+	if o.kind == 'U' || o.kind == 'X' || o.kind == 'Y' {
+		return map[byte]string{'U': "Load([]int{1}) recovered", 'X': "Delete(map[string]int{}) recovered", 'Y': "Store([]string{k}) recovered"}[o.kind]
+	}
 	return map[byte]string{'S': "Store", 'L': "Load", 'D': "Delete", 'T': "StoreSame"}[o.kind] + "(" + o.key + ")"
 }
 
 // eqv compares stored values; values are arbitrary (slices included), so == is not available.
 func eqv(a, b interface{}) bool { return reflect.DeepEqual(a, b) }
 
+// stuckSeen: fault operations after which the cache stopped answering once in this process.
+var stuckSeen = map[byte]bool{}
+
 func alphabet(c int, same bool) []op {
+	return alphabetF(c, same, false)
+}
+
+func alphabetF(c int, same, faults bool) []op {
 	nk := c + 1
 	if nk < 3 {
 		nk = 3
@@ -50,6 +61,9 @@ func alphabet(c int, same bool) []op {
 		for _, k := range keys {
 			ops = append(ops, op{'T', k})
 		}
+	}
+	if faults {
+		ops = append(ops, op{'U', ""}, op{'X', ""}, op{'Y', ""})
 	}
 	return ops
 }
@@ -101,7 +115,7 @@ func (cf config) String() string {
 		return fmt.Sprintf("cap=%d warm=%d prefill=%d cb=%v depth=%d +StoreSame", cf.cap, cf.warm, cf.prefil, cf.cb, cf.depth)
 	}
 	if cf.cbPanic {
-		return fmt.Sprintf("cap=%d warm=%d prefill=%d cb=panics-for-b depth=%d", cf.cap, cf.warm, cf.prefil, cf.depth)
+		return fmt.Sprintf("cap=%d warm=%d prefill=%d cb=panics-for-b +operations with unhashable keys depth=%d", cf.cap, cf.warm, cf.prefil, cf.depth)
 	}
 	if cf.exotic {
 		return fmt.Sprintf("cap=%d warm=%d prefill=%d cb=%v depth=%d keys=nil,0,\"\",struct{}{},1.5", cf.cap, cf.warm, cf.prefil, cf.cb, cf.depth)
@@ -210,6 +224,32 @@ func runSeq(cf config, ops []op, seq []int, c *runner.Ctx) (sig, detail string, 
 			guard(func() { lru.Delete(cf.rk(o.key)) })
 			m.Delete(o.key)
 			trace = append(trace, o.String())
+		case 'U', 'X', 'Y':
+			// an operation abandoned by Go's own refusal of an unhashable key (the caller recovers): it changes nothing,
+			// and the cache answers afterwards
+			if stuckSeen[o.kind] {
+				return "cache-unusable-after-abandoned-operation", fmt.Sprintf("%v: not re-run in this process (each occurrence costs the two-minute wait)", trace), calls, false
+			}
+			func() {
+				defer func() { recover() }()
+				switch o.kind {
+				case 'U':
+					lru.Load([]int{1})
+				case 'X':
+					lru.Delete(map[string]int{})
+				case 'Y':
+					lru.Store([]string{"k"}, step)
+				}
+			}()
+			trace = append(trace, o.String())
+			answered := make(chan int, 1)
+			go func() { answered <- lru.Len() }()
+			select {
+			case <-answered:
+			case <-time.After(2 * time.Minute):
+				stuckSeen[o.kind] = true
+				return "cache-unusable-after-abandoned-operation", fmt.Sprintf("%v: Len() has not returned for two minutes", trace), calls, false
+			}
 		case 'N':
 			n := lru.Len()
 			trace = append(trace, fmt.Sprintf("Len=%d", n))
@@ -490,7 +530,7 @@ func run(c *runner.Ctx) {
 	}
 
 	for _, cf := range cfgs {
-		ops := alphabet(cf.cap, cf.same)
+		ops := alphabetF(cf.cap, cf.same, cf.cbPanic)
 		c.Space(cf.String())
 		n := len(ops)
 		seq := make([]int, cf.depth)
